@@ -104,8 +104,8 @@ POP_BASES = {
     'comp2': rp.Comp([rp.H(2), rp.Cov(rp.LN(1, False), 1)]),
     'nested': rp.Comp([rp.Comp([rp.G(1), rp.P(1)]), rp.H(1)]),
 }
-POP_OPS = ['n1', 'n2', 'n3', 'dims', 'dims0', 'pnames0', 'wrapfix', 'release',
-           'sel']
+POP_OPS = ['n1', 'n2', 'n3', 'dims', 'dims0', 'pnames0', 'wrap', 'wrapfix',
+           'fixlast', 'release', 'sel']
 
 
 def check_pop(m, viol, lab):
@@ -167,9 +167,11 @@ def w_pop_history(case):
     spec = POP_BASES[base]
     m = popbuild.build(spec, None)
     viol = []
+    fixed_names = set()
     for op in history:
         inner = m.get_population_model() if isinstance(
             m, chi.ReducedPopulationModel) else m
+        full_old = inner.get_parameter_names()
         if op in ('n1', 'n2', 'n3'):
             m.set_n_ids(int(op[1]))
         elif op == 'dims':
@@ -178,23 +180,74 @@ def w_pop_history(case):
             m.set_dim_names(None)
         elif op == 'pnames0':
             m.set_parameter_names(None)
-        elif op == 'wrapfix':
+        elif op == 'wrap':
+            if not isinstance(m, chi.ReducedPopulationModel):
+                m = chi.ReducedPopulationModel(m)
+        elif op in ('wrapfix', 'fixlast'):
             if not isinstance(m, chi.ReducedPopulationModel):
                 m = chi.ReducedPopulationModel(m)
             if m.n_parameters() > 0:
-                m.fix_parameters({m.get_parameter_names()[0]: 0.9})
+                which = 0 if op == 'wrapfix' else -1
+                fixed_names.add(m.get_parameter_names()[which])
+                m.fix_parameters({m.get_parameter_names()[which]: 0.9})
         elif op == 'release':
             if isinstance(m, chi.ReducedPopulationModel):
                 full = m.get_population_model().get_parameter_names()
                 m.fix_parameters({k: None for k in full})
+                fixed_names = set()
         elif op == 'sel':
             # (a reduced wrapper does not offer this call; reaching through to the
             # wrapped model behind the wrapper's back is not a reconfiguration of
             # the wrapper)
             if isinstance(m, chi.CovariatePopulationModel):
                 m.set_population_parameters([[0, 0]])
+        # fixed parameters are followed by position through renamings and by name
+        # through changes of the parameter set (set_n_ids)
+        if op not in ('wrap', 'wrapfix', 'fixlast', 'release'):
+            full_new = inner.get_parameter_names()
+            if len(full_new) == len(full_old):
+                fixed_names = set(full_new[i] for i, n_ in enumerate(full_old)
+                                  if n_ in fixed_names)
+            else:
+                fixed_names = fixed_names & set(full_new)
     lab = '%s after %s' % (base, '>'.join(history) or '-')
     facts = check_pop(m, viol, lab)
+    if isinstance(m, chi.ReducedPopulationModel) and not viol:
+        # the wrapper exposes exactly the parameters that were not fixed by name
+        # (names that disappeared with a change of n_ids are forgotten) and
+        # substitutes the fixed value for the others
+        inner = m.get_population_model()
+        full_names = inner.get_parameter_names()
+        e_names = [n_ for n_ in full_names if n_ not in fixed_names]
+        if m.get_parameter_names() != e_names:
+            viol.append({'sub': 'red_names', 'message': 'reduced population model '
+                         'does not list the parameters that were not fixed (%s)'
+                         % base, 'expected': e_names,
+                         'observed': m.get_parameter_names(),
+                         'behaviour': 'red_names'})
+        elif e_names:
+            n_ids = inner.n_ids()
+            x = np.array(vals.reals('c17.red', len(e_names), 0.6, 1.4, 0))
+            it = iter(x)
+            full = np.array([0.9 if n_ in fixed_names else next(it)
+                             for n_ in full_names])
+            cov = None
+            if m.n_covariates():
+                cov = np.array(vals.reals(
+                    'c17.cov', n_ids * m.n_covariates(), 0.2, 1, 0)
+                ).reshape(n_ids, m.n_covariates())
+            kw = {'covariates': cov} if cov is not None else {}
+            eta = np.array(vals.reals('c17.eta', n_ids * m.n_dim(), 0.5, 1.5, 0)
+                           ).reshape(n_ids, m.n_dim())
+            obs = inner.compute_individual_parameters(
+                full, eta, return_eta=True, **kw)
+            a = m.compute_log_likelihood(x, obs, **kw)
+            b = inner.compute_log_likelihood(full, obs, **kw)
+            if not tol.close(a, b):
+                viol.append({'sub': 'red_subst', 'message': 'reduced population '
+                             'model does not substitute the fixed values of the '
+                             'parameters fixed by name (%s)' % base, 'expected': b,
+                             'observed': a, 'behaviour': 'red_subst'})
     for v in viol:
         v['history'] = history
         v['message'] = v['message'].split(' (')[0] + ' (%s)' % base
@@ -297,6 +350,39 @@ def w_objects(case):
         pm = c.get_predictive_model()
         agree('controller predictive model', pm.n_parameters(),
               pm.get_parameter_names())
+    elif kind == 'filter':
+        from . import c13
+        fc = case['fcase']
+        post = c13.build_posterior(fc)
+        x = np.array(fc['vec'], dtype=float)
+        n = post.n_parameters()
+        names = list(post.get_parameter_names())
+        ids = list(post.get_id())
+        s_, g = post.evaluateS1(x.copy())
+        try:
+            named = list(post.get_parameter_names(include_ids=True))
+        except Exception as e:
+            named = 'raise:%s' % type(e).__name__
+        facts = {'n': n, 'names': len(names), 'ids': len(ids), 'grad': len(g),
+                 'vector': len(x), 'named': len(named) if isinstance(named, list)
+                 else named}
+        exp = {'n': n, 'names': n, 'ids': n, 'grad': n, 'vector': n, 'named': n}
+        n_top = post.n_parameters(exclude_bottom_level=True)
+        if facts != exp:
+            viol.append({'sub': 'filter_agree', 'message': 'counts / names / IDs / '
+                         'gradient lengths disagree on the filter posterior',
+                         'expected': exp, 'observed': facts,
+                         'behaviour': 'filter_agree'})
+        elif [i is not None for i in ids] != [False] * n_top + [True] * (n - n_top):
+            viol.append({'sub': 'filter_ids', 'message': 'filter posterior IDs do '
+                         'not mark exactly the simulated-individual entries',
+                         'expected': [n_top, n - n_top], 'observed': ids,
+                         'behaviour': 'filter_ids'})
+        elif len(set(named)) != len(named):
+            viol.append({'sub': 'filter_distinct', 'message': 'ID-prefixed names of '
+                         'the filter posterior are not distinct',
+                         'expected': 'distinct', 'observed': named,
+                         'behaviour': 'filter_distinct'})
     elif kind == 'mech':
         m = chi.library.ModelLibrary().erlotinib_tumour_growth_inhibition_model()
         for op in case['ops']:
@@ -379,6 +465,16 @@ def build(tier, seed):
                         [[(0, 0.8), (2, 0.5)]]):
                 objs.append({'kind': 'ctrl', 'pop': pop, 'n_ids': n_ids,
                              'ops': [[list(p) for p in op] for op in ops]})
+    from . import c13
+    for spec in [rp.Comp([rp.LN(1), rp.P(1), rp.G(1, False)]), rp.G(3),
+                 rp.Comp([rp.H(1), rp.G(2)]), rp.P(3),
+                 rp.Comp([rp.Cov(rp.G(1)), rp.LN(2, False)])]:
+        for n_obs in (1, 2):
+            for sigma_free in (False, True):
+                for ns in (2, 3):
+                    objs.append({'kind': 'filter', 'ops': [], 'fcase': c13.make_case(
+                        spec, ('G', 2), sigma_free, n_obs == 2, ns,
+                        [1.3, 0.4, 2.2][:n_obs + 1], n_obs, seed)})
     mops = [['adm', True], ['adm', False], ['out', ['global.tumour_volume']],
             ['out', ['central.drug_concentration', 'global.tumour_volume']],
             ['sens', True], ['sens', False], ['red', 0], ['red', 2]]
